@@ -1,7 +1,9 @@
 package main
 
 import (
+	"bytes"
 	"go/ast"
+	"go/printer"
 	"go/constant"
 	"go/token"
 	"go/types"
@@ -223,6 +225,7 @@ func mayReturnFn(info *types.Info) func(*ast.CallExpr) bool {
 			switch shortName(f) {
 			case "internal/runtime.fatal", "internal/runtime.throw", "internal/runtime.panicmakeslicelen", "internal/runtime.panicmakeslicecap",
 				"internal/runtime.panicunsafeslicelen", "internal/runtime.panicunsafeslicenilptr",
+				"internal/clite.Siglongjmp", "internal/clite.Longjmp", "internal/clite.Exit", "internal/clite/pthread.Exit",
 				"os.Exit", "log.Fatal", "log.Fatalf", "log.Panicf", "log.Panic", "log.Panicln", "log.Fatalln":
 				return false
 			}
@@ -391,8 +394,29 @@ func nodeHas(n ast.Node, pred func(ast.Node) bool) bool {
 	return found
 }
 
-// exprStr renders an expression compactly.
-func exprStr(e ast.Expr) string { return types.ExprString(e) }
+// exprStr renders an expression compactly. types.ExprString elides composite literal bodies and
+// function literals ("T{…}"), so those are rendered in full with go/printer instead.
+func exprStr(e ast.Expr) string {
+	if e == nil {
+		return ""
+	}
+	elided := false
+	ast.Inspect(e, func(n ast.Node) bool {
+		switch n.(type) {
+		case *ast.CompositeLit, *ast.FuncLit:
+			elided = true
+		}
+		return !elided
+	})
+	if !elided {
+		return types.ExprString(e)
+	}
+	var buf bytes.Buffer
+	if err := printer.Fprint(&buf, token.NewFileSet(), e); err != nil {
+		return types.ExprString(e)
+	}
+	return strings.Join(strings.Fields(buf.String()), " ")
+}
 
 // binCmp decomposes "x op y" comparisons.
 func binCmp(e ast.Expr) (x, y ast.Expr, op token.Token, ok bool) {
